@@ -4,6 +4,7 @@
 use std::io::{self, BufRead, Write};
 use std::panic::{catch_unwind, AssertUnwindSafe};
 
+mod c07;
 mod c19;
 mod ring;
 mod sched;
@@ -20,6 +21,7 @@ pub trait Interp {
 
 fn make(prop: &str) -> Option<Box<dyn Interp>> {
     match prop {
+        "C07" => Some(Box::new(c07::C07::default())),
         "C19" => Some(Box::new(c19::C19::default())),
         "C04" | "C05" | "C06" | "C13" | "C14" => Some(Box::new(ring::Ring::default())),
         _ => None,
